@@ -93,6 +93,8 @@ class ProgGen:
             out.append('interface Sh { method sh(k: int): int }')
             out.append('class Sa(val v: int) : Sh { method sh(k: int): int = this.v + k }')
             out.append('class Sb(val a: int, val b: int) : Sh { method sh(k: int): int = this.a * k - this.b }')
+            # a GENERIC class implementing the interface (a bounded type parameter instantiated with Sg<Str> / Sg<Sa>)
+            out.append('class Sg<T>(val x: T, val k: int) : Sh { method sh(k: int): int = this.k * 2 + k }')
         return out
 
     def enum_methods(self, name, variants):
@@ -195,7 +197,11 @@ class ProgGen:
             a = self.gen_int(ctx, depth - 1)
             if op in ('/', '%'):
                 self.features.add('div')
-                b = r.pick(['2', '3', '-3', '7', '-2', '(%s %% 5 + 6)' % self.gen_int(ctx, depth - 2)]) if r.chance(4, 5) else self.gen_int(ctx, depth - 1)
+                b = r.pick(['2', '3', '-3', '7', '-2', '4', '8', '16', '-4', '(%s %% 5 + 6)' % self.gen_int(ctx, depth - 2)]) if r.chance(4, 5) else self.gen_int(ctx, depth - 1)
+                if r.chance(1, 3):
+                    # a dividend that is certainly negative at run time (sign of the remainder, rounding of the quotient)
+                    self.features.add('negative-dividend')
+                    a = '(0 - (%s %% 40 + 41))' % a
             else:
                 b = self.gen_int(ctx, depth - 1)
             return '(%s %s %s)' % (a, op, b)
@@ -240,8 +246,20 @@ class ProgGen:
             return 'Lst.rep(%s, %s).fold(%s, (%s, %s) -> %s)' % (
                 self.gen_int(ctx, depth - 2), r.pick(['0', '1', '3', '4']), self.gen_int(ctx, depth - 2), a, x,
                 self.gen_int(ctx.extend([(a, INT), (x, INT)]), depth - 2))
+        if 87 <= k < 93 and self.o['vec'] and self.o['generics'] and r.chance(1, 3):
+            self.features.add('vec-of-enum')
+            v = self.fresh('w')
+            a = self.gen_int(ctx, depth - 2)
+            if r.chance(1, 2):
+                return '{ let %s = Vec.of(Opt.Som(%s)); %s.push(Opt.Non()); %s.get(0).orElse(1) + %s.get(1).orElse(2) + %s.pop().orElse(3) }' % (v, a, v, v, v, v)
+            name, variants = r.pick(self.enums)
+            e = self.gen_enum_value(name, ctx, depth - 2)
+            return '{ let %s = Vec.of(%s); %s.push(%s.get(0)); %s.get(1).tag() + %s.length() }' % (v, e, v, v, v, v)
         if k < 90 and self.o['interfaces']:
             obj = 'Sa.init(%s)' % self.gen_int(ctx, depth - 2) if r.chance(1, 2) else 'Sb.init(%s, %s)' % (self.gen_int(ctx, depth - 2), self.gen_int(ctx, depth - 2))
+            if r.chance(1, 3):
+                self.features.add('generic-class-under-bound')
+                obj = 'Sg.init(%s, %s)' % (r.pick(['"s"', 'Sa.init(1)', 'true', '7']), self.gen_int(ctx, depth - 2))
             return 'Main.useSh(%s, %s)' % (obj, self.gen_int(ctx, depth - 2))
         if k < 93 and self.o['vec']:
             self.features.add('vec')
@@ -250,6 +268,10 @@ class ProgGen:
             if self.o['vec_small']:
                 a, b = '(%s %% 1000)' % a, '(%s %% 1000)' % b
             return '{ let %s = Vec.of(%s); %s.push(%s); %s.set(0, %s.get(1) + 1); %s.get(0) + %s.length() }' % (v, a, v, b, v, v, v, v)
+        if k < 96 and self.o['generics'] and self.o['closures'] and r.chance(1, 2):
+            self.features.add('type-parameter-only-in-lambda-body')
+            self.need_only_body = True
+            return 'Main.onlyBody<%s>(%s)' % (r.pick(['int', 'Str', 'Opt<int>', 'bool']), self.gen_int(ctx, depth - 2))
         if k < 96 and self.o['strings']:
             self.features.add('strings')
             return 'Str.fromInt(%s).toInt()' % self.gen_int(ctx, depth - 1)
@@ -284,6 +306,12 @@ class ProgGen:
             return '!%s' % self.gen_bool(ctx, 0) if r.chance(1, 2) else '!(%s)' % self.gen_bool(ctx, depth - 1)
         if k < 92 and self.o['generics']:
             return ('Opt.Som(%s)' % self.gen_int(ctx, depth - 1) if r.chance(1, 2) else 'Opt.Non<int>()') + '.isSome()'
+        if k < 96 and self.o['vec']:
+            # booleans as Vec elements: every way a boolean is computed (comparison, negation, constant) must be the same
+            # value to Vec.eq on both back ends
+            self.features.add('vec-of-bool')
+            a, b = self.gen_bool(ctx, depth - 1), self.gen_bool(ctx, depth - 1)
+            return 'Vec.of(%s).eq(Vec.of(%s))' % (r.pick(['!(%s)' % a, a, '!!(%s)' % a]), r.pick([b, '!(%s)' % b, 'true', 'false']))
         return r.pick(vs) if vs else r.pick(['true', 'false'])
 
     def gen_str(self, ctx, depth):
@@ -479,6 +507,9 @@ class ProgGen:
         imports = 'import { Pair } from std.tuples;\n' if self.o['tuples'] else ''
         if getattr(self, 'need_lpair', False):
             decls = list(decls) + ['class LPair(val a: int, val b: int) {}']
+        if getattr(self, 'need_only_body', False):
+            # the type parameter occurs only in the BODY of the lambda (not in its type, not in what it captures)
+            body.append('  function <T> onlyBody(k: int): int = { let g = (q: int) -> match Opt.Non<T>() { Non -> q + k, Som(_) -> q }; g(1) + g(k) }')
         text = imports + '\n'.join(decls) + '\nclass Main {\n' + '\n'.join(body) + '\n' + main + '\n}\n'
         return text
 
@@ -777,6 +808,9 @@ INFER_HELPERS = '''  function <T> pick(f: (int) -> Opt<T>, d: T): T = f(1).orEls
   function f3w(f: (int, int, int) -> int, k: int): int = f(k, k + 1, k + 2)
   function <N: Nd<E>, E> firstOf(n: N, e: E): E = n.edge()
   function <T: Sh0> useSh0(x: T): int = x.sh(1)
+  function <R> mapSame(o: Opt<R>, f: (R) -> R): Opt<R> = o.map(f)
+  function <R> mapOne(o: Opt<R>): Opt<int> = o.map((q) -> 1)
+  function <R> mapBox(o: Opt<R>): Opt<Opt<R>> = o.map((q) -> Opt.Som(q))
   function appNb(f: (Nb0) -> int): int = f(Nb0.init(2))
   function appSa(f: (Sa0) -> int): int = f(Sa0.init(2))
 '''
@@ -785,6 +819,9 @@ INFER_HELPERS = '''  function <T> pick(f: (int) -> Opt<T>, d: T): T = f(1).orEls
 # expected type (a generic constructor without type arguments, a nested un-annotated lambda), type arguments solved from a
 # lambda argument, from another argument, or from the return-type hint
 INFER_TEMPLATES = [
+    # callers whose type parameter is spelled like the called method's own (`<R>` calling Opt<R>.map<R>)
+    'Main.mapSame(Opt.Som(@k), (@x) -> @x + @j).orElse(0) + Main.mapOne(Opt.Som("s")).orElse(@j)',
+    'Main.mapBox(Opt.Som(@k)).orElse(Opt.Non()).orElse(@j)',
     # a bounded generic function used as a value: its type argument comes from the expected function type
     '{ let @x: (Sa0) -> int = Main.useSh0; @x(Sa0.init(@k)) }',
     'Main.appSa(Main.useSh0) + @k',
@@ -877,6 +914,43 @@ def infer_violation_programs(rng):
                 '  function <A, B> fold(init: B, item: A, f: (B, A) -> B): B = f(init, item)\n'
                 '  function bad(): int = %s\n  function main(): unit = Process.println(Str.fromInt(Main.bad()))\n}\n' % body)
         out.append((kind, {'sources': {'Main': text}, 'entry': 'Main', 'mutated': 'Main'}))
+    # whole-member violations: a type parameter of the caller spelled like the method's own (the method's must not capture it),
+    # and a member that takes the name of the generated constructor
+    members = [
+        ('type-parameter-capture', '  function <R> cap(o: Opt<R>): Opt<Str> = o.map((%s) -> %s)\n' % (names[0], names[0])),
+        ('type-parameter-capture', '  function <R> cap(o: Opt<R>, d: R): Str = o.map((%s) -> %s).orElse(d)\n' % (names[1], names[1])),
+        ('type-parameter-capture', '  function <U> cap(b: Bx2<U>, k: U): Opt<int> = b.conv(k, (%s, %s) -> Opt.Som(1))\n' % (names[0], names[1])),
+    ]
+    # an annotation that is not a valid instantiation, on a `let` whose initialiser takes its type FROM the annotation
+    members += [
+        ('let-annotation-invalid-instantiation', '  function bad(): int = { let _: Bx2 = Process.panic("x"); 1 }\n'),
+        ('let-annotation-invalid-instantiation', '  function bad(): int = { let _: Pr<int> = Process.panic("x"); 1 }\n'),
+        ('let-annotation-invalid-instantiation', '  function bad(): int = { let _: Gr<Nb0, Ed> = Process.panic("x"); 1 }\n'),
+        ('let-annotation-invalid-instantiation', '  function bad(): int = { let _: Sh0 = Process.panic("x"); 1 }\n'),
+        ('let-annotation-invalid-instantiation', '  function <T> mkT(): T = Process.panic("m")\n  function bad(): int = { let _: Opt<Bx2> = Main.mkT(); 1 }\n'),
+    ]
+    for kind, member in members:
+        text = (INFER_PRELUDE + 'class Main {\n' + INFER_HELPERS + member + '  function main(): unit = Process.println("x")\n}\n')
+        out.append((kind, {'sources': {'Main': text}, 'entry': 'Main', 'mutated': 'Main'}))
+    # a refutable pattern nested in an object pattern, followed by an irrefutable element: not exhaustive
+    for kind, member in [
+        ('nonexhaustive-object-pattern', '  function bad(p: PO): int = match p { { a as Som(%s), b } -> %s + b }\n' % (names[0], names[0])),
+        ('nonexhaustive-object-pattern', '  function bad(p: PO): int = { let { a as Som(%s), b } = p; %s + b }\n' % (names[1], names[1])),
+        ('nonexhaustive-object-pattern', '  function bad(p: PO): int = match p { { b, a as Non } -> b }\n'),
+    ]:
+        text = (INFER_PRELUDE + 'class PO(val a: Opt<int>, val b: int) {}\nclass Main {\n' + INFER_HELPERS + member +
+                '  function main(): unit = Process.println(Str.fromInt(Main.bad(PO.init(Opt.Non(), 1)) + Main.bad(PO.init(Opt.Som(2), 1))))\n}\n')
+        out.append((kind, {'sources': {'Main': text}, 'entry': 'Main', 'mutated': 'Main'}))
+    # a class implementing two unrelated interfaces that declare the same method with different signatures
+    for a, b in (('int', 'Str'), ('Str', 'int')):
+        cls = ('interface SzA { method measure(): %s }\ninterface SzB { method measure(): %s }\n'
+               'class BoxM(val v: int) : SzA, SzB { method measure(): int = this.v }\n' % (a, b))
+        text = (INFER_PRELUDE + cls + 'class Main {\n' + INFER_HELPERS + '  function main(): unit = Process.println(Str.fromInt(BoxM.init(3).measure()))\n}\n')
+        out.append(('method-conformance-second-interface', {'sources': {'Main': text}, 'entry': 'Main', 'mutated': 'Main'}))
+    for kind, cls in [('member-named-init', 'class WithInit(val x: int) { function init(s: Str): WithInit = Process.panic(s) }\n'),
+                      ('member-named-init', 'class WithInit(val x: int) { method init(k: int): int = this.x + k }\n')]:
+        text = (INFER_PRELUDE + cls + 'class Main {\n' + INFER_HELPERS + '  function main(): unit = Process.println(Str.fromInt(WithInit.init(3).x))\n}\n')
+        out.append((kind, {'sources': {'Main': text}, 'entry': 'Main', 'mutated': 'Main'}))
     return out
 
 
@@ -923,7 +997,15 @@ def gen_order_program(rng, nfun=8):
         return t(str(rng.range(0, 9)))
 
     def be(d):
-        k = rng.below(6) if d > 0 else 99
+        k = rng.below(8) if d > 0 else 99
+        if k == 6:
+            # an operand whose VALUE is a constant but whose evaluation is visible (must still be evaluated, and only when the
+            # other operand does not decide)
+            return rng.pick(['(%s || true)', '(%s && false)', '(%s || false)', '(%s && true)', '(true && %s)', '(false || %s)',
+                             '{ let _ = %s; true }', '{ let _ = %s; false }']) % tb(rng.pick(['true', 'false']))
+        if k == 7:
+            return '(%s %s %s)' % (be(d - 1), rng.pick(['&&', '||']),
+                                   rng.pick(['(%s || true)', '(%s && false)', '{ let _ = %s; true }', '{ let _ = %s; false }']) % be(d - 1))
         if k == 0:
             return '(%s && %s)' % (be(d - 1), be(d - 1))
         if k == 1:
